@@ -23,7 +23,12 @@ META = {
                   "longer behaviours (6 headers) are replayed step by step into the real Service, which must follow "
                   "the model exactly (calls, checkpoint in memory and in the datastore) while monitors check the "
                   "property on what was observed.",
-    "level_note": "Small-scope: chains <= 6 headers, caps 2..3 (cap 1 is degenerate: the genesis header alone is a "
+    "level_note": "PrunerFine.tla: every Prune call succeeds (failure patterns stay with Pruner.tla); cap 1 with the cursor on "
+                  "genesis is excluded (the genesis header alone is a full batch for ever; the cap is a package constant); "
+                  "'everything old is pruned at cycle end' is measured from the head the cycle's last finder call read -- "
+                  "blocks that became old because the head grew under the finder are owed to the next cycle (liveness "
+                  "AllOldPruned, thorough); a tail deletion under a running cycle waits for checkpointMu (the driver "
+                  "reports a tail that moves under a cycle as drift). Small-scope: chains <= 6 headers, caps 2..3 (cap 1 is degenerate: the genesis header alone is a "
                   "full batch for ever; production uses 512). Inside the window = time > head time - window (a block "
                   "exactly at the cutoff may be pruned). A Prune *call* for an in-window header counts as a violation "
                   "whatever the stub returns. On-delete pruning is checked under the environment assumption that the "
@@ -142,10 +147,40 @@ def run(ctx):
         json.dump(behaviours, f)
     ctx.log("behaviours for replay: %d (%d from simulation)" % (len(behaviours), len(behaviours) - (1 if model_has_tailskip else 0)))
 
+    # 3b. the finder at read granularity (PrunerFine.tla): the header store moves between any two reads of one
+    #     findPruneableHeaders call (head growth between its two Head() reads; tail deletion requested under the
+    #     cycle, which must wait for checkpointMu), batch caps 1 and 2: exhaustive + behaviours for the replay
+    f = ctx.tlc("pruner/PrunerFine.tla", "pruner/MCFine_quick.cfg", workers=6, timeout=600)
+    if not quick:
+        ctx.tlc("pruner/PrunerFine.tla", "pruner/LiveFine.cfg", workers=4, timeout=900)
+    fs = ctx.tlc("pruner/PrunerFine.tla", "pruner/SimFine.cfg", workers=2, simulate="num=%d" % (40 if quick else 400),
+                 depth=46, timeout=600, count=False)
+    fall = [b for b in fs.printed.get("BEH", []) if isinstance(b, list) and len(b) >= 30]
+    fpre = {json.dumps(b[:-1], sort_keys=True) for b in fall}
+    funiq = {}
+    for b in fall:
+        k = json.dumps(b, sort_keys=True)
+        if k not in fpre:
+            funiq[k] = b
+    fine = [{"id": "fine-%d-%d" % (ctx.seed, i), "steps": funiq[k]} for i, k in enumerate(sorted(funiq))]
+    fpath = os.path.join(ctx.work, "fine_behaviours.json")
+    with open(fpath, "w") as fh:
+        json.dump(fine, fh)
+    ctx.log("fine-grained finder behaviours for replay: %d" % len(fine))
+
     # 4. replay into the real Service + store effect on a real store
-    rep = ctx.go_driver("pruner", env={"VERIF_BEHAVIOURS": path}, timeout=1500)
+    rep = ctx.go_driver("pruner", env={"VERIF_BEHAVIOURS": path, "VERIF_FINE_BEHAVIOURS": fpath}, timeout=1500)
     c = rep.get("counters", {}) if rep else {}
-    ctx.cover(traces_validated_against_impl=int(c.get("behaviours_conforming", 0)),
+    if (rep.get("summary", {}) or {}).get("fine_drifted", 0) if rep else False:
+        ctx.inconclusive("the real Service does not follow PrunerFine.tla (conformance drift)")
+    ctx.cover(fine_behaviours_conforming=int(c.get("fine_behaviours_conforming", 0)),
+              fine_head_grew_between_the_two_head_reads=int(c.get("fine_head_grew_between_the_two_head_reads", 0)))
+    for k, n in {"fine_behaviours_replayed": 30, "fine_behaviours_conforming": 30, "fine_head_grew_under_finder": 10,
+                 "fine_head_grew_between_the_two_head_reads": 3, "fine_delete_requested_under_finder": 5,
+                 "fine_deletions": 5, "fine_prune_calls": 20}.items():
+        if c.get(k, 0) < n:
+            ctx.inconclusive("vacuity: driver counter %s = %s (< %d)" % (k, c.get(k, 0), n))
+    ctx.cover(traces_validated_against_impl=int(c.get("behaviours_conforming", 0)) + int(c.get("fine_behaviours_conforming", 0)),
               evaluations=int(c.get("behaviours_replayed", 0)),
               distinct_nontrivial=len({json.dumps(b["steps"], sort_keys=True) for b in behaviours
                                        if any(x.get("n") in ("Prune", "Retry", "ODEnd") for x in b["steps"])}),
